@@ -21,7 +21,69 @@ def fuzz(test, secs, **kw):
     return d
 
 
+def plain(test, **kw):
+    d = dict(test=test, kind="plain", shards=dict(quick=1, thorough=1))
+    d.update(kw)
+    return d
+
+
+HIST_ASSUME = ["all events of one vBucket are fed by one goroutine at a time (gocbcore read loop)",
+               "a consumer acknowledges the events of one vBucket in delivery order (delayed/batched/withheld generated; out-of-order only in C04)",
+               "server histories are valid DCP: seqnos strictly increase per vBucket, every event lies in the last announced snapshot",
+               "Layer-A fakes of couchbase.Client / metadata.Metadata / models.Consumer are the trusted base; the fake store writes per vBucket like the Couchbase backend"]
+
 CHECKS = {
+    "C01": dict(
+        level="fault_enumeration",
+        rule="rapid op-lists (1..80 ops quick, ..300 thorough) over 1..6 (16) vBuckets: deliver(kind,gap,snapshot layout) / ack(next<=n, in order) / "
+             "save ok|rejected(after j per-vBucket writes) / savebegin..saveend (ops interleaved while the store call is blocked) / crash (in-flight "
+             "save applies j of its writes in a generated order) followed by a restart on the same durable store, executed against the real "
+             "stream+checkpoint+observers; oracle 1 at every durable write, oracle 2 + re-delivery at every crash. Every prefix of a shrunk history is "
+             "itself a generated history, so every step is a crash point. non-trivial = a crash with >=1 delivered-but-unacknowledged event "
+             "outstanding and >=1 durable write before it; distinct by hash of the op-list",
+        assumptions=HIST_ASSUME,
+        units=[rapid("TestC01_History", 6000, 400000), plain("TestC01_KnownFindings")],
+        min_share=dict(any={"crash_mid_save": ["histories", 0.10], "ack_delayed_across_save": ["histories", 0.20], "crash_outstanding_after_write": ["histories", 0.10]}),
+    ),
+    "C04": dict(
+        level="exploration",
+        rule="rapid op-lists on the Layer-A history engine: per vBucket the delivered events are acknowledged in any order with repetitions "
+             "(ackidx), in order (ack), a rebalance to a nearby generated range in the middle (real stream.Rebalance with 1 ms delay), then "
+             "acknowledgements of old-session contexts for vBuckets inside and outside the new range, also one while the stream is closed; plus a "
+             "concurrent unit: one goroutine per vBucket acknowledging its own permutation simultaneously. Oracle after every ack: tracked seq = "
+             "max(resume, settled); TrackOffset per vBucket never decreases; offsets API lists only owned vBuckets with the model's position; an "
+             "out-of-range ack causes no TrackOffset / offset / dirty mark / later document; the final save writes the tracked positions. "
+             "non-trivial = an ack below the current position and an out-of-range ack in the history (every concurrent case counts)",
+        assumptions=HIST_ASSUME + ["acknowledgements of one vBucket are issued one at a time (stated by the property)",
+                                   "acks fired while the stream is closed inside a rebalance: only 'no crash' is asserted (assigned range undefined there)"],
+        units=[rapid("TestC04_History", 5000, 300000), rapid("TestC04_Concurrent", 2000, 100000)],
+        min_share=dict(any={"ack_below_position": ["histories", 0.3], "ack_out_of_range": ["histories", 0.1], "ack_old_in_range": ["histories", 0.1]}),
+    ),
+    "C05": dict(
+        level="fault_enumeration",
+        rule="rapid op-lists on the Layer-A history engine (real stream+checkpoint): deliveries incl. 25% non-document / internal-key events, "
+             "in-order acks, save ok | rejected after j per-vBucket writes | savebegin..saveend windows with ops landing during the blocked store "
+             "call; oracle after every save: D_t0(v) <= stored(v) <= M_t1(v) for success, nothing required but nothing forgotten after failure "
+             "(checked at the next success), a save with nothing new performs no per-vBucket write, a skipped save is a violation when advanced "
+             "progress is not durable. non-trivial = (failed save later followed by a successful one) or (ack/non-document event during a store "
+             "call followed by a successful save); distinct by hash of the op-list",
+        assumptions=HIST_ASSUME + ["'before the dump' is not separable from 'before the call' from outside: the harness orders ops before the Save call, during the blocked store call, or after it returned"],
+        units=[rapid("TestC05_History", 6000, 400000), rapid("TestC05_Periodic", 40, 600, 4, 16), plain("TestC05_Fixed")],
+        min_share=dict(any={"save_ok_after_failure": ["histories", 0.10], "ack_during_store": ["histories", 0.10], "save_in_flight": ["histories", 0.2]}),
+    ),
+    "C06": dict(
+        level="exploration",
+        rule="rapid op-lists on the Layer-A history engine: single-item / multi-item / back-to-back snapshots, markers starting at last or last+1, "
+             "sessions resumed mid-snapshot after a crash (server re-announces a range), seqno-advanced replacing the snapshot, late acks (event of "
+             "snapshot k acknowledged after later markers), saves at every point, and (1.2% of deliveries) an invalid server event outside its "
+             "announced snapshot. Oracle on every delivered Offset, every TrackOffset argument and every persisted document: start<=seq<=end and "
+             "the 4-tuple is a member of the set {resume tuple} U {(stream vbUUID, seq, announced snapshot) of one event}; an outside event is never "
+             "delivered and stops the client (panic on the feeding goroutine = process stop in production). non-trivial = an ack issued after >=2 "
+             "later markers of that vBucket and a successful save in the history",
+        assumptions=HIST_ASSUME,
+        units=[rapid("TestC06_History", 6000, 400000)],
+        min_share=dict(any={"ack_after_2_later_markers": ["histories", 0.2], "outside_snapshot": ["histories", 0.05], "backlog_resent": ["histories", 0.1]}),
+    ),
     "C17": dict(
         level="exploration",
         rule="rapid: (a) config.Dcp with a generated subset (density itself drawn) of 46 options explicitly set to non-zero values from "
